@@ -132,3 +132,24 @@ theorem clusterHashed_eq_spec (k : Bytes) : clusterHashed k = hashTagSpec k := b
         simp
 
 end GunYu.Slot
+
+namespace GunYu.Slot
+
+theorem splitFirst_none (c : UInt8) (k : Bytes) (h : c ∉ k) : splitFirst c k = none := by
+  induction k with
+  | nil => rfl
+  | cons b rest ih =>
+    have hb : b ≠ c := fun e => h (by simp [e])
+    have hr : c ∉ rest := fun e => h (List.mem_cons_of_mem _ e)
+    simp [splitFirst, hb, ih hr]
+
+theorem splitFirst_at (c : UInt8) (pre post : Bytes) (h : c ∉ pre) :
+    splitFirst c (pre ++ c :: post) = some (pre, post) := by
+  induction pre with
+  | nil => simp [splitFirst]
+  | cons b rest ih =>
+    have hb : b ≠ c := fun e => h (by simp [e])
+    have hr : c ∉ rest := fun e => h (List.mem_cons_of_mem _ e)
+    simp [splitFirst, hb, ih hr]
+
+end GunYu.Slot
